@@ -201,3 +201,67 @@ pub fn warm() {
     let x: u8 = kani::any();
     assert!(x as u16 <= 255);
 }
+
+// ---------------------------------------------------------------------------
+// Copy substitutions (DESIGN §3.2).  Range-only variants: record the ranges and
+// (for copy_nonoverlapping) assert that they do not overlap; no bytes move.
+// ---------------------------------------------------------------------------
+
+pub static mut COPY_CALLS: usize = 0;
+pub static mut COPY_SRC: usize = 0;
+pub static mut COPY_DST: usize = 0;
+pub static mut COPY_LEN: usize = 0;
+
+pub unsafe fn cno_range_only<T>(src: *const T, dst: *mut T, count: usize) {
+    let n = count * core::mem::size_of::<T>();
+    let s = src as usize;
+    let d = dst as usize;
+    assert!(s + n <= d || d + n <= s, "[C02,C12] copy_nonoverlapping called on overlapping ranges");
+    COPY_CALLS += 1;
+    COPY_SRC = s;
+    COPY_DST = d;
+    COPY_LEN = n;
+}
+
+pub unsafe fn copy_range_only<T>(src: *const T, dst: *mut T, count: usize) {
+    let n = count * core::mem::size_of::<T>();
+    COPY_CALLS += 1;
+    COPY_SRC = src as usize;
+    COPY_DST = dst as usize;
+    COPY_LEN = n;
+}
+
+/// Byte loops with the documented semantics (content variants, small counts only).
+pub unsafe fn cno_loop<T>(src: *const T, dst: *mut T, count: usize) {
+    let n = count * core::mem::size_of::<T>();
+    let s = src as *const u8;
+    let d = dst as *mut u8;
+    assert!((s as usize) + n <= d as usize || (d as usize) + n <= s as usize,
+            "[C02,C12] copy_nonoverlapping called on overlapping ranges");
+    let mut i = 0;
+    while i < n {
+        *d.add(i) = *s.add(i);
+        i += 1;
+    }
+    COPY_CALLS += 1;
+}
+
+pub unsafe fn copy_loop<T>(src: *const T, dst: *mut T, count: usize) {
+    let n = count * core::mem::size_of::<T>();
+    let s = src as *const u8;
+    let d = dst as *mut u8;
+    if (d as usize) <= (s as usize) {
+        let mut i = 0;
+        while i < n {
+            *d.add(i) = *s.add(i);
+            i += 1;
+        }
+    } else {
+        let mut i = n;
+        while i > 0 {
+            i -= 1;
+            *d.add(i) = *s.add(i);
+        }
+    }
+    COPY_CALLS += 1;
+}
